@@ -695,3 +695,94 @@ def ob_mono_app_residue(r, tier, seed):
 _obligations_77 = obligations
 def obligations():
     return _obligations_77() + [Ob('O7.8-body-type-applications', 'no generic type application survives in any type stored inside a function body after mono::mono', ob_mono_app_residue, ('quick', 'thorough'), 5, {})]
+
+# ----------------------------------------------------------------------------- O17.6 a trait method called through a bound runs the implementation for the receiver's type (mono's ETraitCall)
+def ob_bounded_trait_calls(r, tier, seed):
+    W = e2.fresh_world(CRATES); tt = W.tt; W.step_limit = 400000
+    TY = tt.find_adt(['tast', 'Ty'], 'compiler'); CE = tt.find_adt(['core', 'Expr'], 'compiler'); CF = tt.find_adt(['core', 'Fn'], 'compiler'); CFILE = tt.find_adt(['core', 'File'], 'compiler')
+    PR = tt.find_adt(['common', 'Prim'], 'compiler'); MFN = [a for a in tt.by_name['MonoFn'] if a.crate == 'compiler'][0]; ME = [a for a in tt.by_name['MonoExpr'] if a.crate == 'compiler'][0]
+    TI = tt.find_adt(['tast', 'TastIdent'], 'compiler')
+    W.stubs['ty_compact'] = lambda ex, a: mkstr(json.dumps(shape(ex.deref(a[0]), TY), sort_keys=True).replace(' ', ''))
+    r.bounds = ('the program `fn pair[A: Tr1, B: Tr2](a: A, b: B) -> unit { let _ = Tr1::m(a); let _ = Tr2::m(b); let _ = Tr1::m(a); () }` (Tr1, Tr2 each Show or Debug - solver decision; the same trait twice is included), '
+                'called from main at the type arguments (int32, bool), (bool, int32), (int32, int32) - one, two or all three calls present (solver decision)')
+    r.assumptions = ['names::ty_compact replaced by an injective stand-in', 'oracle: in the instance of `pair` for (X, Y) the three calls are calls of trait_impl_fn_name(Tr1, X, m), trait_impl_fn_name(Tr2, Y, m), trait_impl_fn_name(Tr1, X, m) (names from the real names::trait_impl_fn_name) - the implementation for the type of each receiver']
+    T = lambda n, *f: Agg(TY.key, TY.vindex(n), list(f))
+    E = lambda n, **kw: Agg(CE.key, CE.vindex(n), [kw[f[0]] for f in CE.variants[CE.vindex(n)].fields])
+    def fn(name, params, ret, body):
+        return Agg(CF.key, 0, [{'name': mkstr(name), 'generics': PyVec([]), 'params': PyVec([Agg('tuple', 0, [mkstr(n), t]) for n, t in params]), 'ret_ty': ret, 'body': body}[fl[0]] for fl in CF.variants[0].fields])
+    ident = lambda n: Agg(TI.key, 0, [mkstr(n)])
+    ARGS = [('TInt32', 'TBool'), ('TBool', 'TInt32'), ('TInt32', 'TInt32')]
+    def entry(ex):
+        t1 = ex.choose([(True, 'Show'), (True, 'Debug')]); t2 = ex.choose([(True, 'Show'), (True, 'Debug')])
+        present = [ex.choose([(True, True), (True, False)]) for _ in ARGS]
+        if not any(present): present[0] = True
+        un = T('TUnit'); st = T('TString'); tp = lambda n: T('TParam', mkstr(n))
+        unit = E('EPrim', value=Agg(PR.key, PR.vindex('Unit'), [ms.UNIT]), ty=un)
+        def let(n, v, body): return E('ELet', name=mkstr(n), value=mkbox(v), body=mkbox(body), ty=un)
+        def tcall(tr, recv, rty): return E('ETraitCall', trait_name=ident(tr), method_name=ident('m'), receiver=mkbox(E('EVar', name=mkstr(recv), ty=rty)), args=PyVec([]), ty=st)
+        body = let('_1', tcall(t1, 'a', tp('A')), let('_2', tcall(t2, 'b', tp('B')), let('_3', tcall(t1, 'a', tp('A')), unit)))
+        g = fn('pair', [('a', tp('A')), ('b', tp('B'))], un, body)
+        lit = {'TInt32': lambda: E('EPrim', value=Agg(PR.key, PR.vindex('Int32'), [1]), ty=T('TInt32')), 'TBool': lambda: E('EPrim', value=Agg(PR.key, PR.vindex('Bool'), [True]), ty=T('TBool'))}
+        mbody = unit
+        for (x, y), pr in reversed(list(zip(ARGS, present))):
+            if not pr: continue
+            fty = T('TFunc', PyVec([T(x), T(y)]), mkbox(un))
+            mbody = let('_c', E('ECall', func=mkbox(E('EVar', name=mkstr('pair'), ty=fty)), args=PyVec([lit[x](), lit[y]()]), ty=un), mbody)
+        main = fn('main', [], un, mbody)
+        genv = ex.call('env::GlobalTypeEnv::new_empty', [])
+        res = ex.call('mono::mono', [genv, Agg(CFILE.key, 0, [PyVec([g, main])])])
+        names = {}
+        for tr in (t1, t2):
+            for x in ('TInt32', 'TBool'):
+                hh = {0: ident(tr), 1: T(x), 2: mkstr('m')}; names[(tr, x)] = ms.pystr(ex.call('names::trait_impl_fn_name', [Ref(hh, 0), Ref(hh, 1), Ref(hh, 2)]))
+        def calls(e, out):
+            if isinstance(e, Agg) and e.ty == 'Box': e = unbox(e)
+            n = ME.variants[e.idx].name; f = dict(zip([x[0] for x in ME.variants[e.idx].fields], e.fields))
+            if n == 'ECall':
+                fe = unbox(f['func']); fn_, ff = ME.variants[fe.idx].name, dict(zip([x[0] for x in ME.variants[fe.idx].fields], fe.fields))
+                if fn_ == 'EVar': out.append(ms.pystr(ff['name']))
+                for a_ in f['args'].items: calls(a_, out)
+            elif n == 'ELet': calls(f['value'], out); calls(f['body'], out)
+            return out
+        insts = []
+        for f_ in res.fields[0].fields[0].items:
+            fd = dict(zip([x[0] for x in MFN.variants[0].fields], f_.fields)); nm = ms.pystr(fd['name'])
+            if nm == 'main' or not nm.startswith('pair'): continue
+            insts.append(([TY.variants[p_.fields[1].idx].name for p_ in fd['params'].items], calls(fd['body'], [])))
+        return t1, t2, [a for a, pr in zip(ARGS, present) if pr], insts, names
+    res = e2.explore(r, W, entry, [])
+    for p in res:
+        r.cases += 1
+        if p.kind != 'ok':
+            if not any(f.key == 'panic' for f in r.findings): r.findings.append(Finding('panic', 'mono::mono panics on the bounded-call program: %s' % str(p.value)[:200], {}, False, 'not replayed'))
+            continue
+        t1, t2, args, insts, names = p.value; r.nontrivial += 1; bad = None
+        if sorted(tuple(i[0]) for i in insts) != sorted(set(args)): bad = 'instances %s for the call sites %s' % ([i[0] for i in insts], args)
+        else:
+            for ptys, cs in insts:
+                want = [names[(t1, ptys[0])], names[(t2, ptys[1])], names[(t1, ptys[0])]]
+                if cs != want: bad = 'the instance pair[%s, %s] calls %s, the implementations for its receivers are %s' % (ptys[0], ptys[1], cs, want); break
+        if bad and not r.findings:
+            ok_, detail = replay_bounded_calls()
+            r.findings.append(Finding('bounded-call-runs-other-impl', 'bounds (%s, %s), call sites %s: %s' % (t1, t2, args, bad), {'traits': [t1, t2], 'calls': [list(a) for a in args]}, ok_, detail))
+        elif not bad and len(r.samples) < 3: r.samples.append({'traits': [t1, t2], 'instances': [[i[0], i[1]] for i in insts]})
+
+def replay_bounded_calls():
+    src = ('trait Show { fn m(Self) -> string; }\nimpl Show for int32 { fn m(self: int32) -> string { "i" } }\nimpl Show for bool { fn m(self: bool) -> string { "b" } }\n'
+           'fn pair[A: Show, B: Show](a: A, b: B) -> string { Show::m(a) + Show::m(b) + Show::m(a) }\nfn main() -> unit { string_println(pair(1, true)); string_println(pair(true, 1)) }\n')
+    d = tempfile.mkdtemp(prefix='vf-c17b-')
+    try:
+        open(os.path.join(d, 'main.gom'), 'w').write(src)
+        out = subprocess.run([build.compiler_bin(), 'run', '--dump-mono', os.path.join(d, 'main.gom')], capture_output=True, text=True, timeout=60).stdout
+    finally: shutil.rmtree(d, ignore_errors=True)
+    import re as _re
+    wrong = []; blocks = _re.split(r'\n(?=fn )', out)
+    for b in blocks:
+        m_ = _re.match(r'fn (pair\S*)\(a/\d+: (\w+), b/\d+: (\w+)\)', b)
+        if not m_: continue
+        cs = _re.findall(r'trait_impl#Show#(\w+)#m', b)
+        if cs != [m_.group(2), m_.group(3), m_.group(2)]: wrong.append((m_.group(1), cs))
+    return bool(wrong), 'goml `%s`: instances whose bounded calls do not follow the receiver types: %s' % (src.replace('\n', ' | ')[:400], wrong)
+
+def obligations_c17():
+    return [Ob('O17.6-bounded-trait-calls', 'a trait method called through a bound resolves to the implementation for the type of each receiver', ob_bounded_trait_calls, ('quick', 'thorough'), 5, {})]
